@@ -254,13 +254,13 @@ FAMILIES['glencoe-Ctc2']['quick']['cap'] = 6000
 FAMILIES.update({
     'C12-Tree': {
         'quick':    dict(consts=dict(N=4, MaxKids=3, MinHi=1), invariants=tlc.GEN_INVARIANTS),
-        'thorough': dict(consts=dict(N=5, MaxKids=4, MinHi=1), invariants=tlc.GEN_INVARIANTS),
+        'thorough': dict(consts=dict(N=5, MaxKids=4, MinHi=1), invariants=tlc.GEN_INVARIANTS, cap=400),
     },
     'C12-Ctc': {
         'quick':    dict(consts=dict(N=3, MaxKids=2, MinHi=1, Axes={'ctc'}, MaxCtc=1, CtcDepth=1, CtcBinOps=LOGIC_BIN, CtcMinFeatures=3),
                          invariants=tlc.GEN_INVARIANTS, cap=150),
         'thorough': dict(consts=dict(N=3, MaxKids=2, MinHi=1, Axes={'ctc'}, MaxCtc=1, CtcDepth=1, CtcBinOps=LOGIC_BIN, CtcMinFeatures=2),
-                         invariants=tlc.GEN_INVARIANTS, cap=1500),
+                         invariants=tlc.GEN_INVARIANTS, cap=600),
     },
     'C12-Ctc2': {   # two constraints carrying the same name
         'quick':    dict(consts=dict(N=2, MaxKids=1, MinHi=1, Axes={'ctc'}, MaxCtc=2, CtcDepth=1, CtcBinOps={'IMPLIES', 'EXCLUDES'},
